@@ -33,7 +33,7 @@ VERIF_FAIL_PATTERNS = [
     "possible arithmetic underflow/overflow", "possible division by zero", "invariant not satisfied",
     "loop invariant not", "decreases not satisfied", "could not prove termination",
     "possible bit shift underflow/overflow", "unable to prove assertion safety condition",
-    "assertion not satisfied", "failed to prove", "cannot show", "may fail to meet", "not proved",
+    "assertion not satisfied", "failed to prove", "cannot show", "may fail to meet", "not proved", "unable to prove",
 ]
 UNDECIDED_PATTERNS = ["rlimit", "Resource limit", "timed out", "solver"]
 
